@@ -17,8 +17,9 @@ CELLS = [
     ('triclinic, arbitrarily oriented', TRI_P @ GEN.T),
     ('orthogonal vectors rotated off the axes', ORTHO @ GEN.T),
     ('triclinic, c thinner than b (|a x b| > |b x c| > |a x c|)', TRI_C),
+    ('monoclinic, upper-triangular matrix (a has a y component)', np.array([[9.0, 3.0, 0], [0, 8.5, 0], [0, 0, 9.5]])),
 ]
-CELL_IS_LAMMPS = [True, True, True, True, False, False, True]
+CELL_IS_LAMMPS = [True, True, True, True, False, False, True, False]
 
 S3 = 3 ** 0.5
 PATTERNS = {
